@@ -50,6 +50,13 @@ def case_tone(c):
     tone_streams = {'1': [0], 'x': [0], 'y': [1], 'xy': [0, 1]}[c['polcfg']]
     for k in tone_streams:
         ant.streams[k].add_constant_signal(f_start=f0, drift_rate=drift, level=1.0, phase=0.3 * k)
+    second = c.get('second')
+    if second:
+        # a second constant signal on the SAME stream(s), in another recorded coarse channel
+        f0b = fch1 + sgn * (second['coarse'] * chan_bw + second['offset'] * fine_bw)
+        driftb = sgn * second['drift'] * fine_bw / (N * tbin)
+        for k in tone_streams:
+            ant.streams[k].add_constant_signal(f_start=f0b, drift_rate=driftb, level=0.8, phase=1.0)
     dig = sv.RealQuantizer(target_fwhm=32, num_bits=8)
     fb = sv.PolyphaseFilterbank(num_taps=M, num_branches=P)
     rq = sv.ComplexQuantizer(target_fwhm=32, num_bits=8)
@@ -78,6 +85,27 @@ def case_tone(c):
             pw = np.stack([fine(dec[i, :, p], N) for i in range(obsnchan)])       # (nc, S, N)
             has = p in tone_streams
             if not has:
+                continue
+            if second:
+                # each signal is located inside its own coarse channel
+                for (cz, oz, dz, fz, drz) in ((coarse, c['offset'], c['drift'], f0, drift),
+                                              (second['coarse'], second['offset'], second['drift'], f0b, driftb)):
+                    irow = cz - sc
+                    for s in range(pw.shape[1]):
+                        rel0 = oz + dz * (s * N + M / 2) / N
+                        rel1 = oz + dz * ((s + 1) * N + M / 2) / N
+                        if max(abs(rel0), abs(rel1)) > N / 2 - 2 + 1e-9:
+                            amb += 1
+                            continue
+                        judged += 1
+                        k = int(np.argmax(pw[irow, s, :]))
+                        f_peak = obsfreq + (irow - (obsnchan - 1) / 2) * cbw + (k - N / 2) * cbw / N
+                        f_true = fz + drz * (s * N + N / 2 + M / 2) * hbin
+                        if abs(f_peak - f_true) > abs(cbw) / N * (1.0 + 0.5 * abs(dz)) + 1e-9 * abs(f_true):
+                            V('tone_misplaced', 'two signals on one stream: pol %d fine spectrum %d: the signal injected at %.6f Hz '
+                              '(coarse channel %d) peaks at %.6f Hz in its channel (%.2f fine bins away)'
+                              % (p, s, f_true, cz, f_peak, (f_peak - f_true) / (abs(cbw) / N)))
+                            break
                 continue
             for s in range(pw.shape[1]):
                 i, k = np.unravel_index(int(np.argmax(pw[:, s, :])), (obsnchan, N))
@@ -206,6 +234,15 @@ def run(ctx):
                                         for dig in ((True, False) if (Tt or (off == 1 and drift == 0)) else (True,)):
                                             cases.append(dict(rate=rate, P=P, start_chan=sc, num_chans=nc, asc=asc, fch1=fch1,
                                                               polcfg=polcfg, N=N, coarse=coarse, offset=off, drift=drift, digitize=dig))
+    # two constant signals on one stream (different recorded channels; tone + tone, tone + chirp)
+    two = []
+    for base in cases:
+        if base['num_chans'] >= 2 and base['digitize'] and base['offset'] in (1, -5) and base['drift'] == 0:
+            others = [ch for ch in range(base['start_chan'], base['start_chan'] + base['num_chans']) if ch not in (0, base['coarse'])]
+            for ch in others:
+                for off2, dr2 in ((3, 0), (-2, 1)):
+                    two.append(dict(base, second=dict(coarse=ch, offset=off2, drift=dr2)))
+    cases = cases + two
     ctx.pmap(case_tone, cases)
     red = []
     for N in (1, 2, 4, 8):
